@@ -66,8 +66,12 @@ CLAIMED = {
              'quick). Conformance: random first/second-level tables written into the RAM of a VMSA-configured instance '
              '(both SCTLR.EE settings; TTBR0 table at a random 2^(14-N)-aligned slot), TTBCR.N 0..7, PD0/PD1, DACR, AFE, TRE, FCSE; translate_address() and LDR/STR are '
              'executed and physical address, DFSR, DFAR and abort bookkeeping are judged by TLC.',
-        note='long-descriptor (LPAE) walks, stage 2 translation and faults taken to Hyp mode are reported as unmodelled and '
-             'not claimed; with SCTLR.TRE = 0 the emulator reaches its documented mock hook (outcome notimpl); memory '
+        note='the long-descriptor (LPAE) stage-1 walk is specified (WalkLD: TTBR0/TTBR1 selection by T0SZ/T1SZ, EPD, three '
+             'levels, hierarchical APTable, AF, MAIR memory type, 40-bit output address) and exercised with random 64-bit tables '
+             '(successful translations are compared exactly; every long-descriptor-format FAULT reaches the emulator\'s documented '
+             'mock hook tlb_lookup_came_from_cache_maintenance, so only the decision fault / no fault is compared, not DFSR); '
+             'MC_VMSA model-checks the short-descriptor walk only; stage 2 translation and faults taken to Hyp mode are reported '
+             'as unmodelled and not claimed; with SCTLR.TRE = 0 the emulator reaches its documented mock hook (outcome notimpl); memory '
              'attributes other than the memory type used for alignment faults are not compared.',
         technique='TLC model checking of the VMSA spec + TLC trace validation of translate_address() and loads/stores',
         ref='DESIGN.md §4 C15'),
